@@ -55,8 +55,60 @@ def apply_edits(files, ws, changes):
     return {f: "\n".join(ls) for f, ls in out.items()}
 
 
+def host_assoc_case(ctx, i, rng, res):
+    """entities of a module used from a submodule and an INCLUDEd fragment in other files (unique names: oracle = token scan)"""
+    from vf import hostassoc as HA
+    files, names, vis = HA.gen(rng)
+    ws, srv, ev = H.start(files, nthreads=rng.choice([1, 2]))
+    try:
+        res.kind("class:host-assoc")
+        for nm in names:
+            occ = HA.occurrences(files, nm)
+            incfile = {o for o in occ if o[0].endswith(".inc")}
+            res.kind("host-assoc:" + vis[nm])
+            for q in sorted(occ):
+                if q[0].endswith(".inc"):
+                    continue  # queries inside the fragment depend on which includer is current (recorded finding of C10/C15)
+                for col in (q[2], q[3]):
+                    r = srv.request("textDocument/references", srv.pos(ws.uri(q[0]), q[1], col, context={"includeDeclaration": True}))
+                    res.count("evaluations")
+                    res.seen(i, nm, q, col, "references")
+                    got = to_set(ws, r[2]) if r[0] == "resp" else None
+                    if got is None or got - incfile != occ - incfile or not (got & incfile <= incfile):
+                        res.violation(f"host-assoc:references:{vis[nm]}:" + ("missing" if got is not None and (occ - incfile) - got else "extra-or-error"),
+                                      f"references of {nm} from {q[:2]}:{col}: missing {sorted((occ - incfile) - (got or set()))[:4]} extra {sorted((got or set()) - occ)[:4]}",
+                                      {"files": files, "name": nm, "query": list(q)})
+                        break
+                else:
+                    continue
+                break
+            # rename from a random occurrence outside the fragment
+            qs = sorted(o for o in occ if not o[0].endswith(".inc"))
+            q = rng.choice(qs)
+            r = srv.request("textDocument/rename", dict(srv.pos(ws.uri(q[0]), q[1], q[2]), newName="zz_host_new"))
+            res.count("evaluations")
+            if r[0] == "resp" and r[2]:
+                new = apply_edits(files, ws, r[2].get("changes", {}))
+                want = {}
+                for f, t in files.items():
+                    ls = t.split("\n")
+                    for o in sorted((o for o in occ if o[0] == f), key=lambda o: (o[1], -o[2])):
+                        ls[o[1]] = ls[o[1]][:o[2]] + "zz_host_new" + ls[o[1]][o[3]:]
+                    want[f] = "\n".join(ls)
+                bad = [f for f in files if not f.endswith(".inc") and (new or {}).get(f) != want[f]]
+                if bad:
+                    res.violation(f"host-assoc:rename:{vis[nm]}", f"rename of {nm} from {q[:2]} leaves {bad} different from the expected text", {"files": files, "name": nm, "query": list(q)})
+            else:
+                res.violation(f"host-assoc:rename:{vis[nm]}:none", f"rename of {nm} from {q[:2]} -> {str(r)[:120]}", {"files": files, "name": nm, "query": list(q)})
+    finally:
+        ws.close()
+    return res
+
+
 def run_case(ctx, i, rng):
     res = Result()
+    if i % 10 == 9:
+        return host_assoc_case(ctx, i, rng, res)
     style = M.Style(rng) if rng.random() < 0.5 else None
     tight = rng.random() < 0.5
     w = M.gen_workspace(rng, style=style, tight=tight, dollar=rng.random() < 0.3)
